@@ -199,6 +199,18 @@ add("C09", "X-decomposition-moves-fixed", "fixed",
     {"prog": Program((S("sig", "signal-A", 3), For("i0", Range(Num(0), Num(520), None),
         (Decl("Entity", "le", Place("small-lamp", Bin("+", Bin("*", Ref("i0"), Num(2)), Num(5)), Num(7))),)))),
      "info": {"loop": True}, "opts": {}, "poles": None, "optimize": True, "sched": {"seed": 0}}, commit="081906c")
+_lp = Program((S("in1", "signal-1", 100), For("i2", Range(Num(5), Num(9), Num(2)),
+      (Decl("Signal", "t2", Bin("*", Ref("in1"), Ref("i2"))), Decl("Entity", "e2", Place("small-lamp", Bin("*", Ref("i2"), Num(3)), Num(10))),
+       Assign("e2", "enable", Bin(">", Bin("*", Ref("in1"), Ref("i2")), Num(0)))))))
+_lu = Program((S("in1", "signal-1", 100),
+      Decl("Signal", "t2_u0", Bin("*", Ref("in1"), Num(5))), Decl("Entity", "e2_u0", Place("small-lamp", Bin("*", Num(5), Num(3)), Num(10))),
+      Assign("e2_u0", "enable", Bin(">", Bin("*", Ref("in1"), Num(5)), Num(0))),
+      Decl("Signal", "t2_u1", Bin("*", Ref("in1"), Num(7))), Decl("Entity", "e2_u1", Place("small-lamp", Bin("*", Num(7), Num(3)), Num(10))),
+      Assign("e2_u1", "enable", Bin(">", Bin("*", Ref("in1"), Num(7)), Num(0)))))
+add("C16", "F-loop-local-output", "open",
+    "an unconsumed Signal declared in a loop body (Signal t2 = in1 * i2;) is exported by the unrolled program once per iteration but by the loop not at all",
+    {"prog": _lp, "prog2": _lu, "info": {}, "vals": [{"in1": 150}], "optimize": True, "sched": {"seed": 0}, "opts": {}},
+    trigger="loop-local-output-not-exposed")
 
 
 def main():
